@@ -1,5 +1,9 @@
 """C14 — The URL table behaves as a keyed set with a status state machine.
 
+History-independence: the Lean refinement says every answer (check_out included) is a function of the
+current rows only; the probing triples and the exhaustive short histories tie that to the real table
+object (a memo / cache / counter inside the object that survives a state change shows there).
+
 Streams (model `Wpull.Table` vs the real code in the wpull checkout):
   session   a random history of table calls is run on a real `SQLiteURLTable`
             (":memory:" / a file in a temp dir, with close+reopen steps / the
@@ -28,7 +32,13 @@ RULE = ('session: 300 (quick) / 3500 (thorough) histories of 5..60 (quick) / 5..
         'get_all, get_one, contains, get_hostnames, close+reopen; URLs from a per-history pool of 4..9 (collisions '
         'common) made of plain, IDN/Unicode, unparseable, empty, NUL-containing and lone-surrogate strings plus fresh '
         'arbitrary Unicode strings; property strings arbitrary Unicode (incl. empty, NUL, astral, surrogates), integers '
-        '0..5, 2^31, 2^63-1 and (rarely) >= 2^63; table variants memory/disk/generic x bare/wrapped. '
+        '0..5, 2^31, 2^63-1 and (rarely) >= 2^63; table variants memory/disk/generic x bare/wrapped; half of the '
+        'histories are probing: 2..4 plain URLs, all added and partly checked out, then query / state change / '
+        '(reopen) / same query triples where the query asks check_out for the status the change produces '
+        '(release, check_in, update_one, add_many, remove_many, check_out; with and without level bound) or '
+        'get_one / contains / count / get_all. exhaustive: every call sequence prefix + c1 + c2 (+ c3 thorough) + '
+        'observer over 2 URLs (levels 0 and 1), 13 state-changing calls (incl. reopen), 5-6 observers, 3 (quick) / '
+        '5 (thorough) prefix states: 2535 (quick) / ~29k (thorough) histories, each on a fresh table object. '
         'non-trivial = the history changes the table at least once; distinct by canonical history + variant')
 TRUSTED = ['SQLite / SQLAlchemy 2 / sqlite3 binding: transaction atomicity, UNIQUE / NOT NULL with OR IGNORE, rowid '
            'assignment max+1, scan order by rowid (mirrored in the model, sampled by the correspondence run)',
@@ -670,6 +680,48 @@ def error_kinds(op):
     return kinds
 
 
+def gen_probe(rng, pool):
+    """query - state change - same query: [observe, change, (reopen,) observe].  The observing call
+    asks for the status the change produces (so it typically misses first and must hit afterwards);
+    an answer that depends on anything but the current rows (a memo, a stale cache) shows here."""
+    def url():
+        return rng.choice(pool)
+    r = rng.random()
+    if r < 0.3:
+        change, st = ['R'], 'todo'
+    elif r < 0.5:
+        st = rng.choice(STATUSES)
+        change = ['I', url(), st, rng.random() < 0.5, None]
+    elif r < 0.62:
+        st = rng.choice(STATUSES)
+        change = ['U', url(), {'status': st}]
+    elif r < 0.7:
+        st = 'todo'
+        change = ['U', url(), {'level': rng.choice([0, 1, 3])}]
+    elif r < 0.82:
+        st = rng.choice(['todo', 'todo', 'error', 'done'])
+        change = ['A', [{'url': url(), 'data': None,
+                         'props': None if st == 'todo' and rng.random() < 0.5 else
+                         {'parent_url': url(), 'root_url': url(), 'status': st, 'level': rng.choice([0, 1, 2])}}]]
+    elif r < 0.92:
+        st = rng.choice(STATUSES)
+        change = ['X', [url()]]
+    else:
+        st = rng.choice(['todo', 'error'])
+        change = ['O', rng.choice(['todo', 'error']), None]
+    r = rng.random()
+    if r < 0.75:
+        obs = ['O', st, rng.choice([None, None, 1, 2])]
+    elif r < 0.85:
+        obs = ['1', url()]
+    elif r < 0.92:
+        obs = ['Q', url()]
+    else:
+        obs = rng.choice([['C'], ['L']])
+    mid = [change] + ([['Z']] if rng.random() < 0.12 else [])
+    return [list(obs)] + mid + [list(obs)]
+
+
 def gen_session(rng, maxlen):
     pool = []
     for _ in range(rng.randrange(4, 10)):
@@ -677,15 +729,66 @@ def gen_session(rng, maxlen):
     if rng.random() < 0.7:
         pool = [u for u in pool if parse_host(u)[0] == 'H' and not any(0xd800 <= ord(c) <= 0xdfff for c in u)] \
             + [rng.choice(PLAIN), rng.choice(PLAIN)]
+    # half of the histories are "probing": dense state (2-4 plain URLs) and query/change/query triples
+    probing = rng.random() < 0.5
+    if probing:
+        pool = rng.sample(PLAIN, rng.randrange(2, 5))
     n = rng.randrange(5, maxlen + 1)
     ops = []
+    if probing:
+        ops.append(['A', [{'url': u, 'props': None, 'data': None} for u in pool]])
+        for _ in range(rng.randrange(0, len(pool) + 2)):
+            ops.append(['O', 'todo', None])
     while len(ops) < n:
+        if probing and rng.random() < 0.45:
+            ops.extend(gen_probe(rng, pool))
+            continue
         op = gen_op(rng, pool)
         if len(error_kinds(op)) > 1:
             continue
         ops.append(op)
     variant = rng.choice(['memory', 'disk', 'disk', 'generic'])
     return {'variant': variant, 'wrapped': rng.random() < 0.5, 'ops': ops}
+
+
+# ------------------------------------------------------------------ exhaustive short histories
+XA, XB = 'http://a/', 'http://b/x'
+
+
+def exhaustive_cases(thorough):
+    """All call sequences prefix + c1 + c2 (+ c3 in the thorough tier) + observer over a 2-URL alphabet
+    (a at level 0, b at level 1): every (state change, state change, observation) order after
+    five typical table states.  Any answer that is not a function of the current rows alone
+    (memo, cache, counter) differs from the model on one of them."""
+    ea = {'url': XA, 'props': None, 'data': None}
+    eb = {'url': XB, 'props': {'parent_url': XA, 'root_url': XA, 'level': 1}, 'data': None}
+    changers = [['A', [ea]], ['A', [eb]], ['O', 'todo', None], ['O', 'todo', 1], ['O', 'error', None],
+                ['I', XA, 'done', True, None], ['I', XA, 'error', True, None], ['I', XB, 'todo', False, None],
+                ['R'], ['X', [XA]], ['U', XB, {'level': 0}], ['U', XA, {'status': 'todo'}], ['Z']]
+    observers = [['O', 'todo', None], ['O', 'todo', 1], ['O', 'error', None], ['O', 'in_progress', None],
+                 ['1', XA], ['C']]
+    prefixes = [[['A', [ea, eb]], ['O', 'todo', None]],
+                [['A', [ea, eb]], ['O', 'todo', None], ['O', 'todo', None]],
+                [['A', [ea, eb]], ['O', 'todo', None], ['I', XA, 'error', True, None]]]
+    if thorough:
+        prefixes += [[], [['A', [ea, eb]]]]
+    else:
+        observers = observers[:5]
+    import itertools
+    cases = []
+    k = 0
+    depth = 3 if thorough else 2
+    for pi, pre in enumerate(prefixes):
+        d = depth if pi < 2 else 2
+        for mid in itertools.product(changers, repeat=d):
+            for obs in observers:
+                k += 1
+                # table creation dominates here: mostly the in-memory variant (generic only in thorough)
+                variant = ('memory', 'memory', 'memory', 'disk')[k % 4] if not thorough else \
+                    ('memory', 'memory', 'disk', 'memory', 'memory', 'generic', 'memory', 'memory')[k % 8]
+                cases.append({'variant': variant, 'wrapped': (k // 4) % 2 == 1,
+                              'ops': [json.loads(json.dumps(o)) for o in pre + list(mid) + [obs]]})
+    return cases
 
 
 # ------------------------------------------------------------------ running
@@ -752,6 +855,7 @@ def run_case(ctx, case, reply, stream='session'):
     finally:
         real.dispose()
     tags.add('variant:%s%s' % (case['variant'], '+wrapper' if case['wrapped'] else ''))
+    tags.add('stream:' + stream)
     ctx.case(('session', case['variant'], case['wrapped'], json.dumps(jsonable_ops(ops), sort_keys=True)),
              nontrivial=changed, tags=sorted(tags))
     ctx.tag('steps', len(ops))
@@ -866,6 +970,9 @@ def run(ctx):
     ctx.sample({'stream': 'session', 'variant': cases[0]['variant'], 'wrapped': cases[0]['wrapped'],
                 'ops': cases[0]['ops'][:6]})
     run_cases(ctx, cases, spec_share=0.2)
+    ex = exhaustive_cases(ctx.tier == 'thorough')
+    ctx.note('exhaustive_short_histories', len(ex))
+    run_cases(ctx, ex, stream='exhaustive')
     ctx.exhaustive = False
 
 
@@ -873,6 +980,8 @@ def search(ctx):
     rng = ctx.subrng('search')
     cases = [gen_session(rng, 60) for _ in range(ctx.scale(15, 30))]
     run_parallel(ctx, [(c, None, 'search') for c in cases])
+    if not ctx.failures:
+        run_parallel(ctx, [(c, None, 'search') for c in exhaustive_cases(False)])
 
 
 def oracle_only(ctx):
